@@ -487,8 +487,9 @@ def build_line(du, rule, kind, count, steps, claimed=True, tags=()):
             toks.append(f"{s[0]}|{ptok(s[1])}")
         else:
             toks.append("K")
+    modes = sorted({"in:" + s[2] for s in steps if s[0] == "S"})
     return Case(line=" ".join(["sin", du, rule, kind, str(count), *toks]), claimed=claimed,
-                tags=(du, rule, kind, f"n{count}") + tuple(tags))
+                tags=(du, rule, kind, f"n{count}") + tuple(modes) + tuple(tags))
 
 
 def _mode(rng, integral):
@@ -580,9 +581,9 @@ def addm_t(s, du, k):
 
 
 def unclaimed_history(rng: random.Random):
-    """answered by the model, not binding: week / weekday / eternity variables, variables without a
-    rule, periods shorter than or not aligned on the definition period, wrong vector length, ADD
-    before any input"""
+    """answered by the model, not binding: week / weekday / eternity variables, periods shorter than or
+    not aligned on the definition period, wrong vector length, ADD before any input; binding: variables
+    without a rule (an input on anything but one definition period is refused)"""
     c = rng.random()
     count = rng.choice([1, 2])
     # divisible by every number of pieces met below (1..8, 12, 14, 24, 28, 29), exact in float32
@@ -606,7 +607,9 @@ def unclaimed_history(rng: random.Random):
         P = rng.choice([(du, (y, 1, 1), 1), ("year", (y, 1, 1), 1), ("month", (y, 2, 1), 2), ("eternity", (-1, -1, -1), -1),
                         (du, (y, 1, 1), 2)])
         steps = [("S", P, "f", v), ("K",), ("S", P, "f", v), ("K",), ("A", P), ("K",)]
-        return build_line(du, "absent", rng.choice(KINDS), count, steps, claimed=False, tags=("unclaimed", "no-rule"))
+        # routing of Holder.set_input / _set: binding for the correspondence (the oracle stays silent: the
+        # statement is about variables declared with a rule)
+        return build_line(du, "absent", rng.choice(KINDS), count, steps, claimed=True, tags=("no-rule",))
     if c < 0.75:
         du = rng.choice(["month", "year"])
         P = rng.choice([("day", (y, 1, 31), 60), ("month", (y, 3, 1), 1), ("day", (y, 2, 10), 3), ("year", (y, 3, 1), 2),
@@ -636,7 +639,7 @@ MALFORMED = [
 
 
 def generate(rng: random.Random, tier: str):
-    n = 6000 if tier == "quick" else 100000
+    n = 12000 if tier == "quick" else 100000
     out = []
     for _ in range(n):
         out += history(rng, tier)
@@ -744,11 +747,11 @@ PROP = Prop(
           "#unknown x lattice share (or a deliberate contradiction when everything is known, or a non-divisible amount on int variables); the "
           "same calls replayed shuffled / longest-first when every share stays on the lattice; values passed as Python floats, Python ints, "
           "float64/float32/int64/int32 arrays. After every set_input the whole store is read back, then calculate_add over every long period. "
-          "Plus a non-binding stream (week/weekday/eternity variables, no rule, unaligned or shorter periods, wrong length, ADD first) and "
+          "Plus variables without rule (routing errors, binding) and a non-binding stream (week/weekday/eternity variables, unaligned or shorter periods, wrong length, ADD first) and "
           "malformed lines. Non-trivial = at least one accepted input on a period longer than the definition period."),
     assumptions=[
         "numeric policy (DESIGN section 4): amounts, partial sums and shares are multiples of 1/4 below 2**20, so the code's float32 arithmetic is exact; rounding, int32 overflow, NaN are modelled, not verified",
-        "claim domain: day/month/year variables with the divide or dispatch rule, periods of the day/month/year family aligned on the definition period (years and months start on the 1st; year variables on 1 January), sizes >= 1, years < 9990; week-family and eternal variables, variables without rule, unaligned or shorter periods, wrong lengths are compared but not binding",
+        "claim domain: day/month/year variables with the divide or dispatch rule, periods of the day/month/year family aligned on the definition period (years and months start on the 1st; year variables on 1 January), sizes >= 1, years < 9990; variables without rule are binding for the correspondence only (refusal of anything but one definition period); week-family and eternal variables, unaligned or shorter periods, wrong lengths are compared but not binding",
         "the walk stopping early at year 9999 (pendulum overflow in the middle of the dispatch loop) leaves a partially filled store in the code and an unchanged one in the model; not generated",
         "variables are not neutralised, have no `end` date and no formula; inputs are not strings; memory_config is None (no on-disk storage)",
         "numpy conversions (asarray/astype, float32 true division, in-place subtract, sum of arrays) and pendulum date arithmetic are modelled, tied by this correspondence",
